@@ -45,17 +45,14 @@ Definition memb (x : nat) (l : list nat) : bool := existsb (Nat.eqb x) l.
 
 Definition busy_users (ts : list transfer) : list nat := map tuser (filter processing ts).
 
-(* _get_queued_transfers, upload branch.  [seen] = users_with_queued_upload *)
-Fixpoint scan (c : cfg) (bu seen : list nat) (ts : list transfer) : list transfer :=
-  match ts with
-  | [] => []
-  | t :: r =>
-      if SCAN_SKIPS_OFFLINE && offline c (tuser t) then scan c bu seen r
-      else if SCAN_SKIPS_BUSY_USERS && memb (tuser t) bu then scan c bu seen r
-      else if SCAN_ONE_PER_USER && memb (tuser t) seen then scan c bu seen r
-      else if is_queued t then t :: scan c bu (tuser t :: seen) r
-      else scan c bu seen r
-  end.
+(* The selection is the GENERATED code (SlskGen.PrioGen: scan_gen / prioritize_gen / slice_gen / free_gen,
+   regenerated statement by statement from _get_queued_transfers, _prioritize_uploads, manage_transfers,
+   get_free_upload_slots), instantiated with the transfer type of this model. *)
+Definition user_status (c : cfg) (u : nat) : Z := status_code (ust (info c u)).
+
+(* [bu] = uploading_users, [seen] = users_with_queued_upload *)
+Definition scan (c : cfg) (bu seen : list nat) (ts : list transfer) : list transfer :=
+  scan_gen transfer tuser is_queued (user_status c) bu seen ts.
 
 Definition eligible (c : cfg) (ts : list transfer) : list transfer := scan c (busy_users ts) [] ts.
 
@@ -63,21 +60,15 @@ Definition rank (c : cfg) (t : transfer) : nat :=
   let i := info c (tuser t) in rank_of (status_code (ust i)) (ufriend i) (upriv i).
 
 (* list.sort(key=rank): stable, ascending *)
-Fixpoint insert (c : cfg) (x : transfer) (l : list transfer) : list transfer :=
-  match l with
-  | [] => [x]
-  | y :: r => if rank c x <=? rank c y then x :: y :: r else y :: insert c x r
-  end.
-Definition isort (c : cfg) (l : list transfer) : list transfer := fold_right (insert c) [] l.
+Definition insert (c : cfg) (x : transfer) (l : list transfer) : list transfer := insert_gen transfer (rank c) x l.
+Definition isort (c : cfg) (l : list transfer) : list transfer := isort_gen transfer (rank c) l.
+Definition prioritize (c : cfg) (l : list transfer) : list transfer := prioritize_gen transfer (rank c) l.
 
-Definition prioritize (c : cfg) (l : list transfer) : list transfer :=
-  if SORT_REVERSED then rev (isort c l) else isort c l.
-
-Definition free (c : cfg) (ts : list transfer) : nat := slots c - length (filter processing ts).
+Definition free (c : cfg) (ts : list transfer) : nat := free_gen (slots c) (length (filter processing ts)).
 
 (* manage_transfers: uploads[:free_upload_slots] *)
 Definition select (c : cfg) (ts : list transfer) : list transfer :=
-  firstn (free c ts + SLICE_EXTRA) (prioritize c (eligible c ts)).
+  slice_gen transfer (free c ts) (prioritize c (eligible c ts)).
 
 (* manage_transfers, upload loop (repair F03): inside the slice, an upload whose `_transfer_task` is still
    running is skipped -- it keeps its place in the slice, i.e. it still uses up its slot *)
@@ -198,3 +189,37 @@ Definition n_waiting (s : mstate) : nat :=
 
 Definition state_of (s : mstate) (k : nat) : option tstate :=
   match find (fun t => tid t =? k) (mts s) with Some t => Some (tst t) | None => None end.
+
+(* ---- the event-loop half of A1 -----------------------------------------------------------------
+   The asyncio facts used (AsyncSem A1/A7), as the definition of this little machine:
+   * the ready queue is FIFO; call_soon and task creation append at its end;
+   * the handle of a timer that became due is appended after the handles already in the queue;
+   * the management job is one task: after a cycle it sleeps (MIN_TRANSFER_MGMT_INTERVAL > 0) and then
+     waits on its queue, so its next step enters the ready queue later, through a timer or a wake-up
+     (LEnqJob), never ahead of what is already queued; at most one step of it is queued at a time.
+   LExec runs the handle at the head of the queue. *)
+Inductive handle := HFirst (k : nat) | HJob | HOther.
+Record loopst := mkL { lq : list handle; ljob_queued : bool; lbad : bool }.
+(* lbad (ghost): some cycle ran while a first segment created earlier was still waiting in the queue *)
+Inductive levent :=
+  | LExec (created : list nat)     (* run the head; if it is the job's step, its cycle creates these tasks *)
+  | LEnqJob                        (* the job's sleep timer fired / a cycle request woke it *)
+  | LEnqOther.                     (* anything else gets scheduled *)
+
+Definition is_first (h : handle) : bool := match h with HFirst _ => true | _ => false end.
+Definition is_job (h : handle) : bool := match h with HJob => true | _ => false end.
+
+Definition lstep (s : loopst) (e : levent) : loopst :=
+  match e with
+  | LExec created =>
+      match lq s with
+      | [] => s
+      | HJob :: r => mkL (r ++ map HFirst created) false (lbad s || existsb is_first r)
+      | _ :: r => mkL r (ljob_queued s) (lbad s)
+      end
+  | LEnqJob => if ljob_queued s then s else mkL (lq s ++ [HJob]) true (lbad s)
+  | LEnqOther => mkL (lq s ++ [HOther]) (ljob_queued s) (lbad s)
+  end.
+Fixpoint lrun (s : loopst) (evs : list levent) : loopst :=
+  match evs with [] => s | e :: r => lrun (lstep s e) r end.
+Definition linit : loopst := mkL [] false false.
